@@ -6,6 +6,7 @@ import Model.Codec
 import Model.Row
 import Model.JsonRead
 import Model.Cells
+import Driver.Common
 
 namespace Jl.DriverC06
 open Jl
@@ -99,9 +100,7 @@ def observeO (o : OMap Val) (err : String) : String :=
   observe err o.length (o.map fun (k, v) => (k, some v)) (OMap.lookup o)
     (fun i => OMap.lookup o (OMap.keyAt o i))
 
-structure Result where
-  tag : String      -- "S" same, "D" model differs, "P" property (spec) differs, "DP", "B" bad line
-  detail : String
+open Jl.Driver (Result)
 
 def splitOn2 (s : String) (sep : String) : List String := s.splitOn sep
 
